@@ -37,6 +37,10 @@ type sndSUT struct {
 	stopped   bool
 	started   bool
 	exited    *atomic.Bool
+	crashed   *atomic.Bool // doSendPushes panicked (it dereferences the dequeued request)
+	nilEnq    bool         // the case enqueued a nil request (then a crash is the documented outcome)
+	verdict   string       // first property clause this run violated ("" = none)
+	opIdx     int
 	delivered map[int]any
 	unsettled bool
 }
@@ -46,7 +50,7 @@ func newSndSUT(n, capacity int) *sndSUT {
 		capacity = 1
 	}
 	s := &sndSUT{mergeSUT: *newMergeSUT(), n: n, capacity: capacity, q: pxds.NewPushQueue(), sem: make(chan struct{}, capacity),
-		stopCh: make(chan struct{}), closed: make([]bool, n), delivered: map[int]any{}, exited: &atomic.Bool{}}
+		stopCh: make(chan struct{}), closed: make([]bool, n), delivered: map[int]any{}, exited: &atomic.Bool{}, crashed: &atomic.Bool{}}
 	s.cons, s.streams, s.conIdx = newConns(n)
 	return s
 }
@@ -114,6 +118,9 @@ func (s *sndSUT) atRest(o sndObs) bool {
 }
 
 func (s *sndSUT) settle() string {
+	if s.crashed.Load() {
+		return "crashed"
+	}
 	if s.unsettled {
 		// this case already failed to come to rest once: report, do not wait again
 		return s.observeOnce().text + " UNSETTLED"
@@ -122,6 +129,9 @@ func (s *sndSUT) settle() string {
 	stable := 0
 	last := ""
 	for {
+		if s.crashed.Load() {
+			return "crashed"
+		}
 		o := s.observeOnce()
 		if s.atRest(o) && (stable == 0 || o.text == last) {
 			stable++
@@ -162,7 +172,87 @@ func (s *sndSUT) pushdone(i int) {
 	pxds.VerifEventDone(ev)
 }
 
-func (s *sndSUT) apply(f []string) (out string) {
+// apply = run the op on the real system, then evaluate the property clauses on what was observed
+// (the same clauses as the `oracle` sub-command); the verdict of the whole case is part of the
+// answer to `end`, so that a violation seen in this very run is reported even if it would not
+// show again in another run.
+func (s *sndSUT) apply(f []string) string {
+	if f[0] != "case" && s.crashed != nil && s.crashed.Load() {
+		if f[0] == "end" {
+			s.judge(f, "crashed")
+			return "crashed verdict=" + s.verdictTok()
+		}
+		return "crashed"
+	}
+	res := s.applyRaw(f)
+	if f[0] == "case" {
+		return res
+	}
+	s.judge(f, res)
+	if f[0] == "end" {
+		return res + " verdict=" + s.verdictTok()
+	}
+	return res
+}
+
+func (s *sndSUT) verdictTok() string {
+	if s.verdict == "" {
+		return "OK"
+	}
+	return "FAIL:" + s.verdict
+}
+
+func (s *sndSUT) fail(clause string) {
+	if s.verdict == "" {
+		s.verdict = fmt.Sprintf("%s@op%d", clause, s.opIdx)
+	}
+}
+
+func (s *sndSUT) judge(f []string, res string) {
+	s.opIdx++
+	if s.n == 0 {
+		return
+	}
+	if res == "crash" || strings.HasPrefix(res, "crashed") {
+		if !s.nilEnq {
+			s.fail("never-crashes")
+		}
+		return
+	}
+	if strings.HasPrefix(res, "push-event-never-offered") {
+		s.fail("parked-push-event-not-offered-to-live-client")
+	}
+	switch f[0] {
+	case "start", "enq", "deliver", "pushdone", "close", "stop", "shut", "end":
+		if strings.HasSuffix(res, "UNSETTLED") {
+			s.fail("does-not-come-to-rest(token-or-processing-entry-leaked)")
+			return
+		}
+		if res == "bad-op" {
+			return
+		}
+		o := s.observeOnce()
+		if o.tok > s.capacity {
+			s.fail("more-pushes-than-the-limit")
+		}
+		if e := o.tok - o.proc; e != 0 && e != 1 {
+			s.fail("semaphore-not-balanced")
+		}
+		if f[0] == "end" {
+			if o.proc != 0 {
+				s.fail("connection-left-in-processing(wedged)")
+			}
+			if o.tok > 1 {
+				s.fail("semaphore-token-leaked")
+			}
+			if s.started && !o.exited {
+				s.fail("sender-loop-did-not-return")
+			}
+		}
+	}
+}
+
+func (s *sndSUT) applyRaw(f []string) (out string) {
 	defer func() {
 		if r := recover(); r != nil {
 			out = "crash"
@@ -182,10 +272,15 @@ func (s *sndSUT) apply(f []string) (out string) {
 			return "bad-op"
 		}
 		s.started = true
-		go func(ex *atomic.Bool, stop chan struct{}, sem chan struct{}, q *pxds.PushQueue) {
-			defer ex.Store(true)
+		go func(ex, cr *atomic.Bool, stop chan struct{}, sem chan struct{}, q *pxds.PushQueue) {
+			defer func() {
+				if r := recover(); r != nil {
+					cr.Store(true)
+				}
+				ex.Store(true)
+			}()
 			pxds.VerifDoSendPushes(stop, sem, q)
-		}(s.exited, s.stopCh, s.sem, s.q)
+		}(s.exited, s.crashed, s.stopCh, s.sem, s.q)
 		return s.settle()
 	case "enq":
 		if len(f) != 3 {
@@ -199,6 +294,8 @@ func (s *sndSUT) apply(f []string) (out string) {
 		var r *model.PushRequest
 		if i >= 0 {
 			r = s.h.reqs[i]
+		} else {
+			s.nilEnq = true
 		}
 		s.q.Enqueue(s.cons[c], r)
 		return s.settle()
@@ -282,7 +379,7 @@ func (s *sndSUT) apply(f []string) (out string) {
 // ---------------------------------------------------------------- generator
 
 func genSenderCase(r *wire.Rng, c int, out *wire.Out) {
-	nconn := 1 + r.Intn(3)
+	nconn := 1 + r.Intn(4)
 	capacity := 1 + r.Intn(3)
 	out.Line("case", strconv.Itoa(c), "sender", strconv.Itoa(nconn), strconv.Itoa(capacity))
 	d := &declared{}
@@ -321,7 +418,11 @@ func genSenderCase(r *wire.Rng, c int, out *wire.Out) {
 		switch {
 		case x < 6:
 			k := r.Intn(nconn)
-			out.Line("enq", strconv.Itoa(k), strconv.Itoa(r.Intn(d.q)))
+			if r.Chance(1, 120) { // nobody does this; the sender then dereferences nil (modelled: `crashed`)
+				out.Line("enq", strconv.Itoa(k), "nil")
+			} else {
+				out.Line("enq", strconv.Itoa(k), strconv.Itoa(r.Intn(d.q)))
+			}
 			mail[k] = true
 		case x < 11:
 			k := pick(canDeliver)
@@ -382,68 +483,26 @@ func oracleSender(in, outp string) {
 	defer out.Close()
 	s := newSndSUT(0, 1)
 	open := false
-	verdict := ""
-	idx := 0
-	flush := func() {
-		if open {
-			if verdict == "" {
-				verdict = "OK"
-			}
-			out.Line(verdict)
+	emit := func() {
+		if !open {
+			return
 		}
-	}
-	fail := func(c, d string) {
-		if verdict == "" {
-			verdict = fmt.Sprintf("FAIL %s op=%d %s", c, idx, wire.Enc(d))
+		if s.verdict == "" {
+			out.Line("OK")
+		} else {
+			out.Line("FAIL " + strings.Replace(s.verdict, "@", " ", 1))
 		}
+		open = false
 	}
 	for _, f := range wire.ReadLines(in) {
 		if f[0] == "case" {
-			flush()
+			emit()
 			s = newSndSUT(0, 1)
 			s.apply(f)
-			open, verdict, idx = true, "", 0
+			open = true
 			continue
 		}
-		idx++
-		line := strings.Join(f, " ")
-		res := s.apply(f)
-		if res == "crash" {
-			fail("never-crashes", line)
-			continue
-		}
-		if s.n == 0 {
-			continue
-		}
-		if strings.HasPrefix(res, "push-event-never-offered") {
-			fail("parked-push-event-not-offered-to-live-client", line)
-		}
-		switch f[0] {
-		case "start", "enq", "deliver", "pushdone", "close", "stop", "shut", "end":
-			if strings.HasSuffix(res, "UNSETTLED") {
-				fail("does-not-come-to-rest(token-or-processing-entry-leaked)", line+" -> "+res)
-				continue
-			}
-			o := s.observeOnce()
-			if o.tok > s.capacity {
-				fail("more-pushes-than-the-limit", line)
-			}
-			if e := o.tok - o.proc; e != 0 && e != 1 {
-				fail("semaphore-not-balanced", fmt.Sprintf("%s tokens=%d processing=%d", line, o.tok, o.proc))
-			}
-		}
-		if f[0] == "end" {
-			o := s.observeOnce()
-			if o.proc != 0 {
-				fail("connection-left-in-processing(wedged)", res)
-			}
-			if o.tok > 1 {
-				fail("semaphore-token-leaked", res)
-			}
-			if s.started && !o.exited {
-				fail("sender-loop-did-not-return", res)
-			}
-		}
+		s.apply(f)
 	}
-	flush()
+	emit()
 }
